@@ -19,6 +19,7 @@ def check(model: Model, run: Run) -> None:
                        "response is queued under a live fact that its id is outstanding, E4 a final response retires the id")
     common_coverage(ex, run)
     construction_does_not_refuse(model, run, ex)
+    refusal_text_is_total(model, run, ex)
     n_e3 = 0
     for q in SESSION_CLASSES:
         sending = set(ex.sending_entries(q))
@@ -114,3 +115,40 @@ def construction_does_not_refuse(model: Model, run: Run, ex) -> None:
                                  f"{ex.short(q)}.{entry} can be refused by `{e.text[:60]}` in {e.func.split('sansldap.')[-1]}: a {e.exc.split('.')[-1]}, not the library's LDAPError, "
                                  "raised before the session's own checks run", f"{model.relpath(model.functions[e.func].module) if e.func in model.functions else ''}:{e.line}"))
     run.floor("sending entries examined for constructor refusals", n, 10)
+
+
+def refusal_text_is_total(model: Model, run: Run, ex, rule: str = "E7-refusal-is-raised-as-written") -> None:
+    """E7: a refusal is `raise <LDAPError>(<text>)` in _session.py.  Building the text runs code too: an f-string field shows a
+    message object through its __repr__/__str__ (the generated dataclass one shows every field, so the hand-written ones of
+    nested values run as well).  If that can raise, the call fails with that exception instead of the refusal (E2)."""
+    import ast
+    from .c05 import may_raise
+    from ..srcmodel import norm, walk_no_nested
+    mr = may_raise(model)
+    sites = []
+    for fq, fi in list(model.functions.items()):
+        if fi.module != SESSION_MOD or isinstance(fi.node, ast.Lambda):
+            continue
+        for r in walk_no_nested(fi.node):
+            if isinstance(r, ast.Raise) and isinstance(r.exc, ast.Call):
+                q = model.resolve_name(fi.module, norm(r.exc.func)) if isinstance(r.exc.func, (ast.Name, ast.Attribute)) else None
+                if q in model.classes and is_ldap_error(ex, q):
+                    sites.append((fi, r))
+
+    def escs_of(fi, r):
+        ctx = {"fi": fi, "self_cls": None, "pcls": None, "key": (fi.qualname, None), "caught": frozenset(), "handler_var": None}
+        out = set()
+        for a in list(r.exc.args) + [k.value for k in r.exc.keywords]:
+            out |= mr.expr_escapes(a, ctx)
+        return out
+    for fi, r in sites:
+        escs_of(fi, r)          # registers the summaries the text needs
+    mr.fixpoint()
+    for fi, r in sites:
+        bad = sorted(escs_of(fi, r), key=lambda e: (e.exc, e.func, e.line))
+        run.ob(rule, not bad, {"function": fi.qualname.split("sansldap.")[-1], "raise": norm(r)[:70]})
+        for e in bad[:3]:
+            run.fail(Finding(rule, fi.qualname, f"{norm(r)[:50]}|{e.exc.split('.')[-1]}|{e.text[:50]}",
+                             f"while the refusal `{norm(r)[:70]}` is being built, {e.exc.split('.')[-1]} can be raised at `{e.text[:70]}` in {e.func.split('sansldap.')[-1]} "
+                             f"({e.why or e.kind}): the caller gets that instead of the library's error", model.loc(fi.module, r), [e.short()]))
+    run.floor("refusals raised in the session module", len(sites), 8)
